@@ -100,10 +100,7 @@ Lemma shield_swallows_then_redelivers : forall st id last m outer,
 Proof.
   intros st id last m outer Hd. unfold shield_resume. cbn [cancel_msg_of].
   unfold reschedule_delayed.
-  destruct m as [j|].
-  - rewrite Hd. cbn. eexists. split; [reflexivity|]. split; [reflexivity|]. rewrite <- app_assoc. reflexivity.
-  - change (delayed (set_g_owed st true)) with (delayed st). rewrite Hd. cbn.
-    eexists. split; [reflexivity|]. split; [reflexivity|]. rewrite <- app_assoc. reflexivity.
+  rewrite Hd. cbn. eexists. split; [reflexivity|]. split; [reflexivity|]. rewrite <- app_assoc. reflexivity.
 Qed.
 
 (* ... and when that handle runs the task is cancelled again with the same message, cancelling() unchanged overall
